@@ -3,7 +3,7 @@ import itertools
 
 from vf.ref import base58_ref as B58
 from vf.ref import bip32_ref as R
-from vf.runner import Acc, filler
+from vf.runner import Acc, filler, as_tuple
 
 PROPERTY = "C09"
 # E6: seq_ops() indices of the operations that are interrupted at every line (vf/seqexplore.interrupted); probes = listed indices
@@ -134,7 +134,7 @@ def chk_node(case):
         d = call(b32.deserialized_extended_key, ser)
         key = node.k if kind == "prv" else node.K
         exp = (R.VER[(kind, tn)], bytes([node.depth]), node.fp, node.index.to_bytes(4, "big"), node.c, key)
-        if d[0] != "ok" or tuple(d[1]) != exp:
+        if d[0] != "ok" or as_tuple(d[1]) != exp:
             out.append(("C09/deserialise", f"deserialized_extended_key({ser}) = {str(d)[:160]}"))
             continue
         for form in ("bytes", "int"):
@@ -186,14 +186,14 @@ def chk_pubstep(case):
     out = []
     n_ = call(b32.N, k, c)
     P = S.mul(k, S.G)
-    if n_[0] != "ok" or tuple(n_[1][0]) != P or n_[1][1] != c:
+    if n_[0] != "ok" or not isinstance(n_[1], (list, tuple)) or len(n_[1]) != 2 or as_tuple(n_[1][0]) != P or n_[1][1] != c:
         return [("C09/commute/N", f"N({k:#x}, c) = {str(n_)[:120]}, expected the point {P[0]:#x}..")]
     if case.get("full"):
         pub = call(b32.CKDpub, tuple(n_[1][0]), c, i)
         prv = call(b32.CKDpriv, k, c, i)
         if pub[0] != "ok" or prv[0] != "ok":
             return [("C09/commute/raised", f"CKDpub/CKDpriv(k={k:#x}, i={i}) = {str(pub)[:80]} / {str(prv)[:80]}")]
-        if tuple(pub[1][0]) != S.mul(prv[1][0], S.G) or pub[1][1] != prv[1][1]:
+        if not isinstance(pub[1], (list, tuple)) or not isinstance(prv[1], (list, tuple)) or as_tuple(pub[1][0]) != S.mul(prv[1][0], S.G) or pub[1][1] != prv[1][1]:
             out.append(("C09/commute/pub-vs-priv", f"CKDpub(N(k), {i}) != N(CKDpriv(k, {i})) for k={k:#x}"))
     return out
 
